@@ -2,14 +2,10 @@
    (fx_unique = true), for every history and every interleaving of sessions.  The argument rests on
    what a successful commit-time validation of the recorded reads says about the committed state the
    transaction commits on. *)
-From V Require Import SQLCons.Model SQLCons.Basics SQLCons.Steps SQLCons.Frame.
+From V Require Import SQLCons.Model SQLCons.Spec SQLCons.Basics SQLCons.Steps SQLCons.Frame.
 From Coq Require Import ZArith Lia.
 From Coq Require Import ZifyN ZifyNat ZifyBool.
 Open Scope N_scope.
-
-Definition unique_ok (c : cstate) : Prop :=
-  c_uidx c = true ->
-  forall k1 r1 k2 r2, In (k1, r1) (live_rows c) -> In (k2, r2) (live_rows c) -> r_v r1 = r_v r2 -> k1 = k2.
 
 (* ---------- index entries ---------- *)
 Lemma dedup_subset seen es e : In e (dedup seen es) -> In e es.
